@@ -411,9 +411,13 @@ impl<'a> Minimiser<'a> {
         let mut best = case.clone();
         loop {
             let before = (best.ops.len(), best.cfg.len(), total_gap(&best.ops));
-            best = self.min_ops(best);
+            if best.param("min_ops") != Some("0") {
+                best = self.min_ops(best);
+            }
             best = self.min_gaps(best);
-            best = self.min_cfg(best);
+            if best.param("min_cfg") != Some("0") {
+                best = self.min_cfg(best);
+            }
             best = self.min_files(best);
             best = self.min_tape(best);
             let after = (best.ops.len(), best.cfg.len(), total_gap(&best.ops));
